@@ -23,9 +23,14 @@ package data
 
 // Bounded work: every iteration of a decoder loop consumes at least one byte.
 //@ func data.consumeUnixFSData
+//@ prop C14
 //@ loop 0 decreases len(remaining)
 // C09 (decode side): each wire number of the UnixFS Data schema is decoded into its logical field
-// with the value read from the wire; a mode is rejected exactly when it does not fit 32 bits.
+// with the value read from the wire; a mode is rejected exactly when it does not fit 32 bits; and
+// inside the field loop the decoder gives up only for a wire-level reason (truncated or malformed
+// varint/length: n < 0; wrong wire type for the field) or in the two documented semantic checks
+// (block sizes given twice, field 4; mode range, field 7) -- in particular never because of the
+// VALUE of the type, size, hash or fanout fields (an unknown type is reported by reification).
 //@ at call github.com/ipld/go-ipld-prime/fluent/qp.MapEntry#1 assert wire-number-1-is-DataType: fieldNum == 1 && callee_k == "DataType"
 //@ at call github.com/ipld/go-ipld-prime/fluent/qp.MapEntry#2 assert wire-number-2-is-Data: fieldNum == 2 && callee_k == "Data"
 //@ at call github.com/ipld/go-ipld-prime/fluent/qp.MapEntry#3 assert wire-number-3-is-FileSize: fieldNum == 3 && callee_k == "FileSize"
@@ -42,6 +47,7 @@ package data
 //@ at call github.com/ipld/go-ipld-prime/fluent/qp.Int#6 assert mode-is-the-varint-read: callee_i == int64(mode)
 //@ at call github.com/ipld/go-ipld-prime/fluent/qp.Int#6 assert accepted-mode-fits-32-bits: mode <= 4294967295
 //@ at call errors.New#3 assert only-a-mode-beyond-32-bits-is-rejected: mode > 4294967295
+//@ at return assert a-field-is-rejected-only-for-a-wire-level-reason: err != nil ==> n < 0 || fieldNum == 4 || fieldNum == 7 || ((fieldNum == 1 || fieldNum == 3 || fieldNum == 5 || fieldNum == 6) && wireType != 0) || ((fieldNum == 2 || fieldNum == 8) && wireType != 2)
 //@ func data.consumeUnixTime
 //@ loop 0 decreases len(remaining)
 //@ at call github.com/ipld/go-ipld-prime/fluent/qp.MapEntry#1 assert wire-number-1-is-Seconds: fieldNum == 1 && callee_k == "Seconds"
